@@ -17,14 +17,18 @@ let () =
       (match words hd with
        | ["cmp"; _threads; _sched; mode; _spin; seed] ->
          let mode = int_of_string mode in
-         let sizes = List.filter_map (fun m -> match words m with
-                        | [nt; _w] -> Some (int_of_string nt) | [] -> None | _ -> failwith "member") (split_on ';' body) in
+         (* a member is "<nt> <w>" (PTG) or "b" (bare taskpool) *)
+         let members = List.filter_map (fun m -> match words m with
+                        | [nt; _w] -> Some (Some (int_of_string nt)) | ["b"] -> Some None | [] -> None | _ -> failwith "member") (split_on ';' body) in
+         let sizes = List.map (function Some n -> n | None -> 0) members in
          let n = List.length sizes in
          if n < 1 then "<bad case>" else begin
            let szs = List.map nat_of_int sizes in
-           let stp = compose_step (nat_of_int n) in
+           let ms = List.map (function Some k -> Some (nat_of_int k) | None -> None) members in
+           let bare = bare_of ms in
+           let stp = if n <= 1 then compose_step (nat_of_int n) else stepB bare in
            let evs = Array.of_list (all_events szs) in
-           let s = ref (init pre szs) in
+           let s = ref (initB pre ms) in
            let rng = ref (int_of_string seed + 1) in
            let continue = ref true in
            while !continue do
@@ -40,8 +44,8 @@ let () =
            let ints l = String.concat "," (List.map (fun x -> string_of_int (int_of_nat x)) l) in
            let b2 b = if b then "1" else "0" in
            Printf.sprintf "n=%d ran=%s begun=%s enq=%s ccb=%d seq=%s clast=%s tpw=%s late=0 act=%d"
-             n (ints (ran st)) (ints (begun st)) (ints (enqs st)) (int_of_nat (c_cb st)) (b2 (seq_ok st))
-             (b2 (compound_last st)) (if mode = 0 then "-" else b2 (compound_last st)) (int_of_z (active st))
+             n (ints (ran st)) (ints (begun st)) (ints (enqs st)) (int_of_nat (c_cb st)) (b2 (seq_okB bare st))
+             (b2 (compound_lastB bare st)) (if mode = 0 then "-" else b2 (compound_lastB bare st)) (int_of_z (active st))
          end
        | _ -> "<bad case>")
     | _ -> "<bad case>")
